@@ -297,6 +297,8 @@ pub fn c18_oracle(case: &PlanCase, trace: &Trace, ctx: &mut Ctx) {
     crate::with_kind!(case.space.kind, c18_k, case, trace, ctx)
 }
 
+/// radius_factor > 0: multiple of the alphabet diameter; radius_factor = -(k): exactly the distance
+/// between alphabet states 0 and k (so that `<` versus `<=` on the radius matters)
 fn scripted_case(kind: KindTag, world: usize, radius_factor: f64, seq: &[usize]) -> PlanCase {
     let a = alphabet(kind);
     let ws = worlds(&a);
@@ -330,7 +332,11 @@ fn scripted_case(kind: KindTag, world: usize, radius_factor: f64, seq: &[usize])
         planner: PlannerTag::PRM,
         step: a.step,
         goal_bias: 0.0,
-        radius: diam * radius_factor,
+        radius: if radius_factor > 0.0 {
+            diam * radius_factor
+        } else {
+            exact_distance(kind, &a, (-radius_factor) as usize)
+        },
         seed: Some(0),
         script: Some(seq.iter().map(|i| a.states[*i].clone()).collect()),
         ops: vec![
@@ -349,12 +355,20 @@ fn scripted_case(kind: KindTag, world: usize, radius_factor: f64, seq: &[usize])
     }
 }
 
+fn exact_k<K: Kind>(a: &super::explore::Alphabet, k: usize) -> f64 {
+    // the planner's own argument order: distance(new sample, earlier milestone)
+    KSpace::<K>::new(&a.space).map(|ks| ks.d(&a.states[k], &a.states[0])).unwrap_or(1.0)
+}
+fn exact_distance(kind: KindTag, a: &super::explore::Alphabet, k: usize) -> f64 {
+    crate::with_kind!(kind, exact_k, a, k)
+}
+
 pub struct C18Scripted;
 impl Prop for C18Scripted {
     type Case = PlanCase;
     const ID: &'static str = "C18";
     const PART: &'static str = "scripted-bounded-exhaustive";
-    const RULE: &'static str = "every sample sequence of length 1..4 (quick; length 4 only in the free and the wall world) / 1..5 (thorough) over the per-kind state alphabet (duplicates, seam / antipodal / -q states) x worlds over the alphabet x connection radius in {0.35, 0.7, 1.2} x alphabet diameter, fed to the real PRM through a scripted sampler with history setup(P1), construct, solve, construct (again), set_problem_definition(P2), solve. Non-trivial = roadmap with >= 2 connected components, an answer with >= 3 milestones, or a query after a problem replacement.";
+    const RULE: &'static str = "every sample sequence of length 1..4 (quick; length 4 only in the free and the wall world) / 1..5 (thorough) over the per-kind state alphabet (duplicates, seam / antipodal / -q states) x worlds over the alphabet x connection radius in {0.35, 0.7, 1.2} x alphabet diameter and exactly the distance between two alphabet states (strictness of the radius test), fed to the real PRM through a scripted sampler with history setup(P1), construct, solve, construct (again), set_problem_definition(P2), solve. Non-trivial = roadmap with >= 2 connected components, an answer with >= 3 milestones, or a query after a problem replacement.";
     fn random_cases(_tier: Tier) -> usize {
         0
     }
@@ -368,7 +382,7 @@ impl Prop for C18Scripted {
             let nw = worlds(&a).len();
             let n = a.states.len();
             for world in 0..nw {
-                for rf in [0.35, 0.7, 1.2] {
+                for rf in [0.35, 0.7, 1.2, -2.0, -3.0] {
                     let mut seqs: Vec<Vec<usize>> = vec![vec![]];
                     for len in 1..=maxlen {
                         let deep_ok = tier == Tier::Thorough || len < 4 || world == 0 || world == nw - 1;
